@@ -196,7 +196,8 @@ def _regex_lemmas(e, st):
         head = z3.ForAll([m], Implies(And(Or(*[m_regex(m) == _G(r) for r in REGEX_HEAD]), bm.m_ghas(m, S_("pin_cite"))),
                                       bm.m_gstart(m, S_("pin_cite")) == bm.m_gstart(m, S_("0"))), patterns=[bm.m_ghas(m, S_("pin_cite"))])
         year = z3.ForAll([m], Implies(And(Or(*[m_regex(m) == _G(r) for r in REGEX_YEAR]), bm.m_ghas(m, S_("year"))),
-                                      z3.InRe(grp("year"), z3.Loop(D, 4, 4))), patterns=[bm.m_ghas(m, S_("year"))])
+                                      And(z3.InRe(grp("year"), z3.Loop(D, 4, 4)), bm.m_gend(m, S_("year")) - bm.m_gstart(m, S_("year")) == 4,
+                                          z3.Length(grp("year")) == 4)), patterns=[bm.m_ghas(m, S_("year"))])
         order = []
         for g in ("pin_cite", "extra", "court", "year", "publisher", "month", "day"):
             order.append(z3.ForAll([m], Implies(And(bm.m_ghas(m, S_(g)), bm.m_ghas(m, S_("parenthetical"))),
@@ -274,3 +275,150 @@ lemma("window_mono", ["t:str", "a:int", "b:int", "c:int", "x:str"],
       "implies(0 <= a and a <= b and b <= c and c <= len(t) and x in t[a:b], x in t[a:c])")
 ghost_code("helpers.extract_pin_cite", "at:return",
     "use_lemma('window_mono', ghost.text, ghost.offs[index + 1] - len(prefix), ghost.offs[index + 1] - len(prefix) + py_last(m['pin_cite'], ', '), result[1], result[0])")
+
+# ------------------------------------------------------------------------------------------------ add_post_citation
+# a freshly constructed full citation positioned at words[citation.index]
+CIT_AT = ("cit_wf(citation) and 0 <= citation.index and citation.index < len(words) and words[citation.index] is citation.token "
+          "and citation.span_start is None and citation.span_end is None")
+E0 = "ghost.offs[citation.index + 1]"          # span end of the citation (= its token's end)
+S0 = "ghost.offs[citation.index]"              # span start
+
+YEAR_INV = ("(citation.year is None or (1600 <= citation.year and citation.year <= G._highest_valid_year and citation.metadata.year is not None "
+            "and len(citation.metadata.year) >= 4 and citation.year == str_to_int(citation.metadata.year[0:4])))")
+
+contract("helpers.add_post_citation",
+    types={"citation": "obj<FullCaseCitation>", "words": WORDS_T}, returns="none", noraise=True, prop="C02", ghost=GHOST_DOC, merge_ifs=True,
+    requires={"part": "PART(words, ghost.text, ghost.offs)", "cit": CIT_AT, "lemmas": "regex_lemmas()",
+              "fresh_year": "citation.year is None", "fresh_end": "citation.full_span_end is None and citation.metadata.pin_cite_span_end is None",
+              "fresh_metadata": "citation.metadata.pin_cite is None and citation.metadata.extra is None and citation.metadata.year is None and citation.metadata.parenthetical is None"},
+    modifies=["citation.full_span_end", "citation.year", "citation.metadata.pin_cite", "citation.metadata.pin_cite_span_end",
+              "citation.metadata.extra", "citation.metadata.parenthetical", "citation.metadata.year", "citation.metadata.court"],
+    ensures={
+        # C02: full span end and pin-cite span end lie between the span end and the end of the text
+        "full_span_end_bounds": f"citation.full_span_end is None or ({E0} <= citation.full_span_end and citation.full_span_end <= len(ghost.text))",
+        "pin_span_end_bounds": f"citation.metadata.pin_cite_span_end is None or ({E0} <= citation.metadata.pin_cite_span_end "
+                               f"and citation.full_span_end is not None and citation.metadata.pin_cite_span_end <= len(ghost.text))",
+        # C02: when a pin cite was captured, the pin-cite span contains the pin-cite text
+        "pincite_text_inside": f"citation.metadata.pin_cite is None or (citation.metadata.pin_cite_span_end is not None and "
+                               f"in_window(citation.metadata.pin_cite, ghost.text, {E0}, citation.metadata.pin_cite_span_end))",
+        # C17: textual metadata comes from the text between the span end and the full span end
+        "extra_inside": f"citation.metadata.extra is None or (citation.full_span_end is not None and in_window(citation.metadata.extra, ghost.text, {E0}, citation.full_span_end))",
+        "year_inside": f"citation.metadata.year is None or (citation.full_span_end is not None and in_window(citation.metadata.year, ghost.text, {E0}, citation.full_span_end))",
+        "parenthetical_inside": f"citation.metadata.parenthetical is None or (citation.full_span_end is not None and in_window(citation.metadata.parenthetical, ghost.text, {E0}, citation.full_span_end))",
+        # C18: numeric year only in range and equal to the (four) digits of the textual year
+        "year_sound": YEAR_INV,
+    },
+    props={"extra_inside": "C17", "year_inside": "C17", "parenthetical_inside": "C17", "year_sound": "C18"})
+
+assumed("helpers.get_court_by_paren",
+    types={"paren_string": "str"}, returns="str",
+    requires={"s": "paren_string is not None"},
+    trusted_note="court id lookup over courts_db (not text provenance; C17 does not list court)")
+
+lemma("full_slice", ["y:str", "n:int"], "implies(len(y) == n, y[0:n] == y)")
+ghost_code("helpers.add_post_citation", "after:Assign#9", "use_lemma('full_slice', m['year'], 4)")
+lemma("prefix_inner", ["T:str", "U:str", "a:int", "b:int"], "implies(prefix_of(T, U) and 0 <= a and a <= b and b <= len(T), T[a:b] == U[a:b])")
+lemma("tail_inner", ["t:str", "o:int", "a:int", "b:int"], "implies(0 <= o and 0 <= a and a <= b and o + b <= len(t), tail(t, o)[a:b] == t[o + a:o + b])")
+lemma("slice_in", ["t:str", "a:int", "b:int"], "implies(0 <= a and a <= b and b <= len(t), t[a:b] in t)")
+lemma("window_sub", ["t:str", "a:int", "b:int", "a0:int", "b0:int", "x:str"],
+      "implies(0 <= a0 and a0 <= a and a <= b and b <= b0 and b0 <= len(t) and x in t[a:b], x in t[a0:b0])")
+lemma("in_trans", ["x:str", "y:str", "z:str"], "implies(x in y and y in z, x in z)")
+lemma("prefix_in", ["p:str", "s:str"], "implies(prefix_of(p, s), p in s)")
+
+
+def group_is_text(g, E0_):
+    """lemma steps showing m[g] == text[E0+start(g) : E0+end(g)] for a forward window match with empty prefix"""
+    return (f"use_lemma('prefix_inner', m_text(m), tail(ghost.text, {E0_}), m_start(m, '{g}'), m_end(m, '{g}'))\n"
+            f"use_lemma('tail_inner', ghost.text, {E0_}, m_start(m, '{g}'), m_end(m, '{g}'))\n"
+            f"assert implies(m is not None and m_has(m, '{g}'), m['{g}'] == ghost.text[{E0_} + m_start(m, '{g}'):{E0_} + m_end(m, '{g}')]), 'group_{g}_is_text'\n")
+
+
+ghost_code("helpers.add_post_citation", "at:return",
+    group_is_text("pin_cite", E0) + group_is_text("extra", E0) + group_is_text("year", E0) + group_is_text("parenthetical", E0) +
+    # pin cite: strip of the group, group starts at the head
+    f"use_lemma('slice_in', m['pin_cite'], py_first(m['pin_cite'], ', '), py_last(m['pin_cite'], ', '))\n"
+    f"use_lemma('window_sub', ghost.text, {E0} + m_start(m, 'pin_cite'), {E0} + m_end(m, 'pin_cite'), {E0}, citation.metadata.pin_cite_span_end, citation.metadata.pin_cite)\n"
+    # extra: strip of the group (or of "")
+    f"use_lemma('slice_in', m['extra'], py_first_ws(m['extra']), py_last_ws(m['extra']))\n"
+    f"use_lemma('window_sub', ghost.text, {E0} + m_start(m, 'extra'), {E0} + m_end(m, 'extra'), {E0}, citation.full_span_end, citation.metadata.extra)\n"
+    f"use_lemma('slice_in', m['year'], 0, len(m['year']))\n"
+    f"use_lemma('window_sub', ghost.text, {E0} + m_start(m, 'year'), {E0} + m_end(m, 'year'), {E0}, citation.full_span_end, citation.metadata.year)\n"
+    # parenthetical: a prefix of the group
+    f"use_lemma('prefix_in', citation.metadata.parenthetical, m['parenthetical'][0:len(citation.metadata.parenthetical)])\n"
+    f"use_lemma('slice_slice', ghost.text, {E0} + m_start(m, 'parenthetical'), m_end(m, 'parenthetical') - m_start(m, 'parenthetical'), len(citation.metadata.parenthetical))\n"
+    f"use_lemma('prefix_slice', citation.metadata.parenthetical, m['parenthetical'], len(citation.metadata.parenthetical))\n"
+    f"use_lemma('slice_in', ghost.text, {E0} + m_start(m, 'parenthetical'), {E0} + m_start(m, 'parenthetical') + len(citation.metadata.parenthetical))\n"
+    f"use_lemma('window_sub', ghost.text, {E0} + m_start(m, 'parenthetical'), {E0} + m_start(m, 'parenthetical') + len(citation.metadata.parenthetical), {E0}, citation.full_span_end, citation.metadata.parenthetical)\n")
+
+# ------------------------------------------------------------------------------------------------ L-CAT: "".join over a slice of words
+@spec("on_join")
+def _on_join(e, st, sv, sep, xs):
+    """L-CAT (consequence of PART, by induction with lemma slice_concat as the step):
+    "".join(str(w) for w in words[a:b]) == text[offs[a]:offs[b]]."""
+    if not (z3.is_string_value(sep) and sep.as_string() == ""):
+        return
+    t = xs.tag
+    if not (t and t[0] == "map" and t[1].tag and t[1].tag[0] == "slice"):
+        return
+    src, ivar, val = t[1], t[2], t[3]
+    base, lo, hi = src.tag[1], src.tag[2], src.tag[3]
+    words = st.store.get("words")
+    text, offs = st.store.get("ghost.text"), st.store.get("ghost.offs")
+    if words is None or text is None or offs is None or not base.v.arrs[0].eq(words.v.arrs[0]):
+        return
+    # the mapped function must be str(w)
+    if not (val.ty.kind == "str" and val.v.eq(strval(e.seq_get(src, ivar).v))):
+        return
+    st.assume(sv.v == z3.SubString(text.v, _off(offs, lo), _off(offs, hi) - _off(offs, lo)))
+    e.trust("L-CAT: ''.join(str(w) for w in words[a:b]) == text[offs[a]:offs[b]] (induction over PART; step = lemma slice_concat)")
+
+
+@spec("match_groups")
+def _match_groups(e, st, m):
+    pat = m.tag[2] if m.tag and len(m.tag) > 2 else None
+    if pat is not None and pat.tag == ("lit", r"(?P<defendant>.*)\s\((?P<year>\d{4})\)$"):
+        from pyvc import cpy_tables
+        d = bm.match_group_sv(e, st, m, z3.StringVal("defendant"))
+        y = bm.match_group_sv(e, st, m, z3.StringVal("year"))
+        # E-RE-LANG(DEFENDANT_YEAR_REGEX): both groups participate in every match; year is \d{4};
+        # the defendant group starts at the match start and ends before the year group
+        st.assume(Implies(Not(m.none), And(bm.m_ghas(m.v, z3.StringVal("defendant")), bm.m_ghas(m.v, z3.StringVal("year")),
+                                           z3.InRe(y.v, z3.Loop(cpy_tables.char_class("re_d"), 4, 4)), z3.Length(y.v) == 4,
+                                           bm.m_gend(m.v, z3.StringVal("defendant")) <= bm.m_gstart(m.v, z3.StringVal("year")))))
+        e.trust("E-RE-LANG(DEFENDANT_YEAR_REGEX): groups defendant and year always participate; year is \\d{4} (lemma 4.2)")
+        return SV(TUP(STR, STR), [d, y])
+    from pyvc.engine import Unsupported
+    raise Unsupported("match.groups() on a pattern without a group-structure lemma (the E-RE-LANG fact is stated for the shipped DEFENDANT_YEAR_REGEX text)")
+
+
+# ------------------------------------------------------------------------------------------------ add_defendant
+FSS = "citation.full_span_start"
+contract("helpers.add_defendant",
+    types={"citation": "obj<FullCaseCitation>", "words": WORDS_T}, returns="none", noraise=True, prop="C02", ghost=GHOST_DOC,
+    requires={"part": "PART(words, ghost.text, ghost.offs)", "cit": CIT_AT,
+              "fresh": "citation.full_span_start is None and citation.metadata.plaintiff is None and citation.metadata.defendant is None",
+              "year_inv": YEAR_INV,
+              "stopword_groups": "forall(lambda i: implies(0 <= i and i < len(words) and isinstance(words[i], StopWordToken), "
+                                 "typed(words[i], 'obj<StopWordToken>').groups is not None and 'stop_word' in typed(words[i], 'obj<StopWordToken>').groups))"},
+    modifies=["citation.full_span_start", "citation.year", "citation.metadata.plaintiff", "citation.metadata.defendant", "citation.metadata.year"],
+    locals_types={"start_index": "int"},
+    ensures={
+        # C02: 0 <= full-span start <= span start
+        "full_span_start_bounds": f"{FSS} is None or (0 <= {FSS} and {FSS} <= {S0})",
+        # C17: the extracted plaintiff is the text at the start of the full span, the defendant lies inside it
+        "plaintiff_at_full_span_start": f"citation.metadata.plaintiff is None or ({FSS} is not None and 0 <= {FSS} and {FSS} + len(citation.metadata.plaintiff) <= {S0} "
+                                        f"and ghost.text[{FSS}:{FSS} + len(citation.metadata.plaintiff)] == citation.metadata.plaintiff)",
+        "defendant_inside": f"citation.metadata.defendant is None or ({FSS} is not None and in_window(citation.metadata.defendant, ghost.text, {FSS}, {S0}))",
+        # C18
+        "year_sound": YEAR_INV,
+        "year_inside": f"citation.metadata.year is None or citation.metadata.year == old(citation.metadata.year) or ({FSS} is not None and in_window(citation.metadata.year, ghost.text, {FSS}, {S0}))",
+    },
+    props={"plaintiff_at_full_span_start": "C17", "defendant_inside": "C17", "year_sound": "C18", "year_inside": "C17"})
+
+loop("helpers.add_defendant", 1,
+    invariant={
+        "offset": "offset == ghost.offs[citation.index] - ghost.offs[citation.index - k]",
+        "range": "0 <= citation.index - k",
+        "start_none": "start_index is None",
+        "plaintiff_none": "citation.metadata.plaintiff is None",
+    })
